@@ -134,6 +134,7 @@ def check(plan, r):
                 if not ok and not ret.get("unres"):
                     viols.append(_v("C14.fresh_init_failed", "C_InitToken on the free slot returned %s" % K.rvname(rv), call=f, op=k))
                 cov.add("init_fresh|others%d|%s" % (len(w.toks), ok))
+                st("fresh_init_checked")
             else:
                 tk = w.toks[t]; pin = bytes.fromhex(op["pin"]); have = bool(w.sessions_on(pid, t))
                 expect = pin == tk.so_pin and not have
@@ -160,7 +161,6 @@ def check(plan, r):
             if len(free) != 1:
                 viols.append(_v("C14.free_slot", "%d uninitialised slots listed after %s (exactly one expected)" % (len(free), lastop[0]), call="C_GetSlotList", op=k, n=len(free)))
             else: st("new_free_slot")
-            if lastop[0] == "C_InitToken": st("fresh_init_checked")
             seen = {}
             for x in inited:
                 ref = ref_of_label(bytes.fromhex(x["label"]))
